@@ -414,9 +414,9 @@ func ruleA3(c *Ctx) {
 				return
 			}
 			guarded := false
-			for _, pc := range pathConds(x.Block()) {
-				cv, neg := stripNot(pc.If.Cond)
-				if e2, ok := cv.(*ssa.Extract); ok && e2.Tuple == ex.Tuple && e2.Index == 1 && (pc.Branch != neg) {
+			for _, pf := range pathFacts(x.Block()) {
+				cv, neg := pf.Cond, false
+				if e2, ok := cv.(*ssa.Extract); ok && e2.Tuple == ex.Tuple && e2.Index == 1 && (pf.Truth != neg) {
 					guarded = true
 				}
 			}
@@ -430,9 +430,9 @@ func ruleA3(c *Ctx) {
 				n++
 				key := "unpackArgNoEscape: reflective store"
 				guarded := false
-				for _, pc := range pathConds(x.Block()) {
-					cv, neg := stripNot(pc.If.Cond)
-					if call, ok := cv.(*ssa.Call); ok && call.Call.IsInvoke() && call.Call.Method.Name() == "AssignableTo" && (pc.Branch != neg) {
+				for _, pf := range pathFacts(x.Block()) {
+					cv, neg := pf.Cond, false
+					if call, ok := cv.(*ssa.Call); ok && call.Call.IsInvoke() && call.Call.Method.Name() == "AssignableTo" && (pf.Truth != neg) {
 						guarded = true
 					}
 				}
